@@ -270,9 +270,42 @@ def index_status(outpath, deep):
                         return 'bad:load-serial'
             finally:
                 fs.close()
+            if deep == 'rw':
+                # ... and so does a normal read-write open next to whatever siblings lie around
+                fs = FileStorage(outpath)
+                try:
+                    if fs._pos != spos or fs._ltid != sltid or dict(fs._index.items()) != sidx:
+                        return 'bad:open-rw'
+                finally:
+                    fs.close()
+                with open(outpath, 'rb') as f:
+                    if f.read() != raw:
+                        return 'bad:open-rw-changed-file'
         except Exception as e:
             return 'bad:open(%s)' % type(e).__name__
     return 'ok'
+
+
+def usable_with_index(outpath):
+    """None when opening `outpath` next to whatever <outpath>.index holds (stale, truncated, …)
+    answers exactly like a full scan; else a short reason.  The index is only a cache."""
+    from ZODB.FileStorage import FileStorage
+    try:
+        spos, sidx, sltid = scan_index(outpath)
+        for ro in (True, False):
+            fs = FileStorage(outpath, read_only=ro)
+            try:
+                if fs._pos != spos or fs._ltid != sltid or dict(fs._index.items()) != sidx:
+                    return 'open(read_only=%s) differs from a full scan' % ro
+            finally:
+                fs.close()
+    except Exception as e:
+        return 'open raised %s' % type(e).__name__
+    return None
+
+
+def nvar_all(fin):
+    return fin.get('max_damages') is None
 
 
 def model_idx(st):
@@ -424,7 +457,7 @@ class Run:
     def path_arg(self, path, is_dir=False):
         """`path` (absolute, under self.dir) as the scenario's path style spells it"""
         st = self.paths
-        if is_dir and st == 'symlink' and path == self.repo:
+        if is_dir and st == 'symlink' and os.path.realpath(self.link) == os.path.realpath(path):
             path = self.link
         if st in ('rel', 'relslash'):
             path = os.path.relpath(path, self.dir)
@@ -438,8 +471,8 @@ class Run:
         """-B/-R/-V command line; short and long option names, -v, and option order vary"""
         r = self.orng
         items = [[mode]] + [[f] for f in flags]
-        items.append(['-r', self.path_arg(repo or self.repo, True) if repo is None or repo == self.repo
-                      else repo])
+        items.append(['-r', self.path_arg(self.repo, True) if repo is None or repo == self.repo
+                      else self.path_arg(repo, True)])
         for k, v in valued.items():
             if v is not None:
                 items.append(['-' + k, self.path_arg(v) if k in ('f', 'o') else v])
@@ -790,6 +823,60 @@ class Run:
             other = [x for x in other if x != 'tmp.tmp']     # left by that crash until the next copyfile
         if other:
             self.violation('C18:stray-files', 'unexpected files in the repository: %r' % other)
+        if st.get('also2') is not None and not self.outside:
+            self.backup2(st['also2'].replace('-', ''), committed)
+
+    def backup2(self, flags, committed):
+        """the same Data.fs is also backed up into a SECOND repository (slow mode, no -k) by the same
+        process, interleaved with the first: oracle only (snapshots per date), no model"""
+        if self.repo2 is None:
+            self.repo2 = os.path.join(self.dir, 'second-repository')
+            os.mkdir(self.repo2)
+        _FT.now += 1
+        before = set(os.listdir(self.repo2))
+        _FT.readings = []
+        status, _o, msg = run_main(self.argv('-B', ['-' + c for c in flags], repo=self.repo2, f=self.fsn))
+        new = sorted(n for n in set(os.listdir(self.repo2)) - before if DATA_RE.match(n))
+        self.count('second-repository:backup:%s' % ('failed' if status != 0 else
+                                                     'noop' if not new else 'wrote'))
+        if status != 0:
+            self.violation('C18:backup-failed:second-repository', 'backup %r into a second repository '
+                           'failed: %s %s' % (flags, status, msg[:200]))
+        elif new:
+            import calendar
+            t = calendar.timegm(tuple(int(x) for x in DATA_RE.match(new[0]).groups()[:6]))
+            self.held2.append((t, committed, new[0]))
+        elif not self.held2 or self.held2[-1][1] != committed:
+            self.violation('C18:noop-loses-data:second-repository', 'backup into the second repository '
+                           'wrote nothing although the committed data differ from its last backup')
+
+    def check_repo2(self):
+        if not self.held2:
+            return
+        out = os.path.join(self.dir, 'out2', 'R.fs')
+        os.mkdir(os.path.dirname(out))
+        for t, snap, fname in self.held2:
+            for n in os.listdir(os.path.dirname(out)):
+                os.unlink(os.path.join(os.path.dirname(out), n))
+            status, _o, msg = run_main(self.argv('-R', ['-w'] if self.orng.random() < 0.5 else [],
+                                                 repo=self.repo2, D=dashed(t), o=out))
+            data = open(out, 'rb').read() if os.path.exists(out) else None
+            if status != 0 or data != snap:
+                self.violation('C18:recover-differs:second-repository',
+                               'recover -D %s from the second repository: %s, %s bytes, expected the %d '
+                               'committed bytes of that moment' % (dashed(t), status or 'exit 0',
+                                                                    'no' if data is None else len(data), len(snap)))
+            else:
+                st = index_status(out, False)
+                if st != 'ok':
+                    self.violation('C18:recover-index:%s:second-repository' % st.split('(')[0],
+                                   'second repository, -D %s: restored index is %s' % (dashed(t), st))
+        for q in ([], ['-Q']):
+            status, _o, msg = run_main(self.argv('-V', q, repo=self.repo2))
+            if status != 0:
+                self.violation('C18:verify-fails-intact:second-repository', 'verify %s of the intact second '
+                               'repository fails: %s' % (q, msg[:200]))
+        self.count('second-repository:checked')
 
     # ---- recover / verify ----------------------------------------------------------------
     def expected_entry(self, bound):
@@ -803,18 +890,41 @@ class Run:
                 best = e
         return best
 
-    def recover(self, date, w, mode, pre, judge=True, used_damaged=False, deep=False):
-        """one `repozo -R`; returns the coarse observation"""
+    def bound_of(self, date):
+        if re.match(r'^\d{4}-\d\d-\d\d(-\d\d){0,3}$', date):
+            return when_of(date)
+        # any other string: repozo compares file names with it as strings; the names are fixed-width,
+        # so the admitted files are the backups up to some date
+        ok = [t for t, _ in self.all_backups if dashed(t) <= date]
+        return 'le:%s' % (d14(max(ok)) if ok else '0')
+
+    SIBLINGS = ('.tmp', '.old', '.lock', '.index.index_tmp', '.pack')
+
+    def recover(self, date, w, mode, pre, judge=True, used_damaged=False, deep=False, keep=False):
+        """one `repozo -R`; returns the coarse observation.  pre: 1 = a stale output file and index
+        exist, 2 = also stale .tmp/.old/.lock/... siblings; keep: leave the output of the previous
+        recovery in place (repeated recoveries into the same output)"""
         now = _FT.now
-        bound = when_of(date) if date else 'le:%s' % d14(now)
+        bound = self.bound_of(date) if date else 'le:%s' % d14(now)
         outdir = os.path.dirname(self.out)
-        for n in os.listdir(outdir):
-            os.unlink(os.path.join(outdir, n))
-        if pre and mode == 'o':
-            with open(self.out, 'wb') as f:
-                f.write(STALE_FILE)
-            with open(self.out + '.index', 'wb') as f:
-                f.write(STALE_INDEX)
+        live = self.out == self.fsn
+        if not keep:
+            for n in os.listdir(outdir):
+                os.unlink(os.path.join(outdir, n))
+            if pre and mode == 'o':
+                with open(self.out, 'wb') as f:
+                    f.write(STALE_FILE)
+                with open(self.out + '.index', 'wb') as f:
+                    f.write(STALE_INDEX)
+                if pre == 2:
+                    for ext in self.SIBLINGS:
+                        with open(self.out + ext, 'wb') as f:
+                            f.write(b'stale ' + ext.encode())
+                    if self.orng.random() < 0.5:           # the stale files may be newer or older
+                        for n in os.listdir(outdir):
+                            os.utime(os.path.join(outdir, n), (START + 10 ** 6, START + 10 ** 6))
+        if deep and (pre == 2 or keep):
+            deep = 'rw'
         argv = self.argv('-R', ['-w'] if w else [], D=date or None, o=self.out if mode == 'o' else None)
         status, out, msg = run_main(argv)
         kind = err_kind(status, msg)
@@ -841,12 +951,11 @@ class Run:
                 'ok' if status == 0 else 'err',
                 'none' if data is None else '%d:%d' % (len(data), fnv64(data)),
                 'none' if part is None else part, model_idx(idx))
-            extra = sorted(set(os.listdir(outdir)) - {os.path.basename(self.out),
-                                                      os.path.basename(self.out) + '.index',
-                                                      os.path.basename(self.out) + '.part'})
-            if extra:
+            allowed = {os.path.basename(self.out) + x for x in ('', '.index', '.part') + self.SIBLINGS}
+            extra = sorted(set(os.listdir(outdir)) - allowed)
+            if extra and not live:
                 self.violation('C18:recover-stray-output', 'recover left %r' % extra)
-        self.emit('recover %s %d %s %d' % (bound, int(w), mode, int(pre)), obs)
+        self.emit('recover %s %d %s %d' % (bound, int(w), mode, 2 if keep else int(bool(pre))), obs)
         if not judge:
             return obs
         desc = 'recover -D %s%s%s' % (date or '(now)', ' -w' if w else '', ' -o' if mode == 'o' else '')
@@ -904,6 +1013,10 @@ class Run:
             dates.append(dashed(t + 60, 5))
         dates.append(dashed(self.all_backups[-1][0] + 86400, 3))    # yyyy-mm-dd (next day)
         dates.append(dashed(self.all_backups[0][0], 4))             # yyyy-mm-dd-hh (before everything)
+        tmid = self.all_backups[len(self.all_backups) // 2][0]
+        odd = ['9999', '0', dashed(tmid) + '-99', dashed(tmid)[:-1], dashed(tmid).replace('-', '/'), 'zzz',
+               dashed(tmid) + '.fs']                                # not dates at all: compared as strings
+        dates += odd if nvar_all(fin) else rng.sample(odd, 2)
         variants = [(w, m, p) for w in (0, 1) for m in 'os' for p in (0, 1) if not (m == 's' and p)]
         nvar = fin.get('variants', 2)
         first = True
@@ -916,6 +1029,15 @@ class Run:
                 self.recover(d, w, m, p, deep=deep and m == 'o')
                 deep = deep and m != 'o'
             first = False
+        # -- stale siblings next to the output (.tmp .old .lock ...), newer or older than the backups
+        self.recover(rng.choice(dates[:len(self.all_backups)] + [None]), rng.choice([0, 1]), 'o', 2, deep=True)
+        # -- repeated recoveries into the SAME output at different dates (nothing cleaned in between)
+        good = [dashed(e.t) for e in self.held] + ([None] if self.held else [])
+        if good:
+            seq = [rng.choice(good) for _ in range(3)]
+            for i, d in enumerate(seq):
+                self.recover(d, rng.choice([0, 1]), 'o', 1, keep=i > 0, deep=True)
+            self.count('recover:repeated-into-same-output')
         # -- verify the intact repository
         for q in (False, True):
             ok, kind = self.verify(q)
@@ -935,6 +1057,12 @@ class Run:
                 damages.append((n, 'altered', (rng.randrange(size), rng.randrange(1, 256))))
                 if n.endswith('z') and size > 12:
                     damages.append((n, 'altered', (rng.choice([4, 5, 8, 9]), rng.randrange(1, 256))))
+                    # a gzip member cut at each of its boundaries: inside / after the 10-byte header,
+                    # inside the deflate stream, before / inside the CRC32, before / inside ISIZE
+                    cuts = [1, 9, 10, 11, size - 9, size - 8, size - 5, size - 4, size - 1]
+                    for c in (cuts if nvar_all(fin) else rng.sample(cuts, 2)):
+                        if 0 < c < size:
+                            damages.append((n, 'truncated', c))
         maxd = fin.get('max_damages')
         if maxd is not None and len(damages) > maxd:
             damages = rng.sample(damages, maxd)
@@ -946,10 +1074,16 @@ class Run:
             sides = rng.sample(sides, 4)
         for n in sides:
             self.side_damage(n)
+        self.index_damages(rng)
+        self.dat_damages(rng)
+        if damages:
+            self.copy_phase(rng, damages, maxd, chain_names, newest_full)
+        self.check_repo2()
+        self.live_recover(rng)
+
+    def copy_phase(self, rng, damages, maxd, chain_names, newest_full):
         # -- a COPY of the repository (mirror / restored from tape) while the original stays where the
         #    .dat files say it is: -V and -R of the copy must look at the copy's own files
-        if not damages:
-            return
         orig_repo = self.repo
         copy = os.path.join(self.dir, 'repo-copy')
         shutil.copytree(orig_repo, copy)
@@ -971,6 +1105,116 @@ class Run:
             self.repo = orig_repo
             self.in_copy = False
             shutil.rmtree(copy, ignore_errors=True)
+
+    def live_recover(self, rng):
+        """last of all: the live database is closed and a backup is recovered INTO ITS OWN PATH, next
+        to its real Data.fs.index / .tmp / .lock / .old"""
+        cands = [e for e in self.held if not e.excluded]
+        if not cands or self.outside:
+            return
+        if getattr(self, 'torn', False):
+            self.do_untorn({})
+        if self.txn is not None:
+            self.fs.tpc_abort(self.txn)
+            self.txn = None
+        self.fs.close()
+        e = rng.choice(cands)
+        out0, self.out = self.out, self.fsn
+        try:
+            self.count('recover:into-the-live-database-path')
+            self.recover(dashed(e.t), rng.choice([0, 1]), 'o', 1, keep=True, deep=True)
+        finally:
+            self.out = out0
+
+    def index_damages(self, rng):
+        """.index files of chain members missing / older / truncated: -V does not look at them, -R
+        restores what is there; the recovered file must stay usable (an index is only a cache)"""
+        ch = [e for e in self.chain() if not e.excluded]
+        if not ch or self.outside:
+            return
+        e = rng.choice(ch)
+        stem = os.path.splitext(e.fname)[0]
+        ip = os.path.join(self.repo, stem + '.index')
+        if not os.path.exists(ip):
+            return
+        with open(ip, 'rb') as f:
+            orig = f.read()
+        older = [x for x in ch if x.t < e.t]
+        kinds = ['missing', 'truncated'] + (['older'] if older else [])
+        for kind in (kinds if self.case.get('final', {}).get('max_damages') is None else [rng.choice(kinds)]):
+            self.emit('save', 'ok')
+            if kind == 'missing':
+                os.unlink(ip)
+                self.emit('dmg delidx ' + d14(e.t), 'ok')
+            elif kind == 'truncated':
+                with open(ip, 'wb') as f:
+                    f.write(orig[:rng.randrange(len(orig))])
+            else:
+                p_ = rng.choice(older)
+                shutil.copyfile(os.path.join(self.repo, os.path.splitext(p_.fname)[0] + '.index'), ip)
+                self.emit('dmg cpidx %s %s' % (d14(p_.t), d14(e.t)), 'ok')
+            self.count('damage:index-%s-of-a-chain-member' % kind)
+            try:
+                for q in (False, True):
+                    ok, _k = self.verify(q)
+                    if not ok:
+                        self.violation('C18:verify-fails-intact:index-%s' % kind, 'verify fails because an '
+                                       '.index file is %s although every recorded backup file is intact' % kind)
+                pre = rng.choice([0, 1])
+                self.recover(dashed(e.t), rng.choice([0, 1]), 'o', pre, judge=False, used_damaged=True)
+                if os.path.exists(self.out):
+                    with open(self.out, 'rb') as f:
+                        data = f.read()
+                    if data != e.snapshot:
+                        self.violation('C18:recover-differs:index-%s' % kind, 'recover -D %s with an .index '
+                                       'file %s does not give the committed bytes of that backup' % (
+                                           dashed(e.t), kind))
+                    elif not (pre and kind == 'missing'):
+                        why = usable_with_index(self.out)
+                        if why:
+                            self.violation('C18:recovered-file-unusable:index-%s' % kind,
+                                           'recovered file next to the %s index restored with it: %s' % (kind, why))
+            finally:
+                with open(ip, 'wb') as f:
+                    f.write(orig)
+            self.emit('restore', 'ok')
+
+    def dat_damages(self, rng):
+        """the .dat itself cut at a line boundary (code and model compared) or inside a line (code only):
+        not 'backup files recorded', nothing is judged, but nothing may hang or be left half done"""
+        dats = sorted(n for n in os.listdir(self.repo) if n.endswith('.dat') and SIDE_RE.match(n))
+        if not dats:
+            return
+        n = rng.choice(dats)
+        path = os.path.join(self.repo, n)
+        with open(path, 'rb') as f:
+            orig = f.read()
+        lines = orig.splitlines(True)
+        keepn = rng.randrange(len(lines))
+        self.emit('save', 'ok')
+        with open(path, 'wb') as f:
+            f.write(b''.join(lines[:keepn]))
+        self.emit('dmg truncdat %s %d' % (''.join(SIDE_RE.match(n).groups()[:6]), keepn), 'ok')
+        self.count('damage:dat-cut-at-line-boundary(not judged)')
+        try:
+            for q in (False, True):
+                self.verify(q)
+            self.recover(None, 1, 'o', 0, judge=False, used_damaged=True)
+            self.recover(None, 0, 's', 0, judge=False, used_damaged=True)
+        finally:
+            with open(path, 'wb') as f:
+                f.write(orig)
+        self.emit('restore', 'ok')
+        if len(orig) > 2:
+            with open(path, 'wb') as f:
+                f.write(orig[:rng.randrange(1, len(orig) - 1)])
+            try:
+                for q in ([], ['-Q']):
+                    status, _o, msg = run_main(self.argv('-V', q))
+                    self.count('damage:dat-cut-inside-a-line(code only):verify:%s' % err_kind(status, msg))
+            finally:
+                with open(path, 'wb') as f:
+                    f.write(orig)
 
     def side_damage(self, n):
         path = os.path.join(self.repo, n)
@@ -1065,6 +1309,13 @@ class Run:
             # gzip stream unreadable: outside the model (gzip = identity); real code + oracle only
             del self.lines[nlines:]
             self.count('damage:gzip-unreadable(model skipped)')
+        if changed and role != 'superseded-chain' and not getattr(self, 'retried', False) \
+                and not getattr(self, 'in_copy', False):
+            # failure, then the same operation again: the damaged file was repaired, the output
+            # directory still holds whatever the failed -R -w left (.part); recover into it again
+            self.retried = True
+            self.count('recover:retry-after-failed-with-verify')
+            self.recover(None, 1, 'o', 1, keep=True, deep=True)
 
 
 # ------------------------------------------------------------------ running cases
@@ -1240,6 +1491,10 @@ def same(op, real, model):
     exception kinds are internal), artefacts (bytes, .part, index) exactly"""
     if op.startswith('verify') or op.startswith('recover'):
         model = re.sub(r'^err:\S+', 'err', model)
+        if op.startswith('recover') and op.endswith(' 2'):
+            # the output of an earlier recovery was in place: "left as it was" is that, not the stale stub
+            model = model.replace('idx=stale', 'idx=new')
+            real = real.replace('idx=stale', 'idx=new')
         model = model.replace('idx=bad', 'idx=new')
         real = real.replace('idx=bad', 'idx=new')
         if 'idx=new' in real:
